@@ -96,16 +96,20 @@ Head_(r) ==
     \o (IF r.close THEN "Connection: close" \o CRLF ELSE IF r.ver = "1.0" THEN "Connection: keep-alive" \o CRLF ELSE "")
     \o CRLF
 
+\* body bytes a..b-1 of request i: the provenance pattern, or -- when the request carries a literal body
+\* (bodyLit, used for bodies that imitate HTTP framing) -- those characters
+BodyPiece(r, i, a, b) == IF r.bodyLit = "" THEN Run(i, a, b) ELSE Lit(SubSeq(r.bodyLit, a + 1, b))
+
 RECURSIVE ChunkSegs(_, _, _, _)
 \* chunks cs of request i starting at body offset a
 ChunkSegs(r, i, cs, a) ==
     IF cs = << >> THEN << >>
-    ELSE <<Lit(ToHex(Head(cs), r.hexUpper) \o (IF r.chunkExt THEN ";x=y" ELSE "") \o CRLF), Run(i, a, a + Head(cs)), Lit(CRLF)>>
+    ELSE <<Lit(ToHex(Head(cs), r.hexUpper) \o (IF r.chunkExt THEN ";x=y" ELSE "") \o CRLF), BodyPiece(r, i, a, a + Head(cs)), Lit(CRLF)>>
          \o ChunkSegs(r, i, Tail(cs), a + Head(cs))
 
 BodySegs(r, i) ==
     CASE r.framing = "none" -> << >>
-      [] r.framing = "cl"   -> IF r.bodyLen = 0 THEN << >> ELSE <<Run(i, 0, r.bodyLen)>>
+      [] r.framing = "cl"   -> IF r.bodyLen = 0 THEN << >> ELSE <<BodyPiece(r, i, 0, r.bodyLen)>>
       [] r.framing = "chunked" ->
            ChunkSegs(r, i, r.chunks, 0)
            \o <<Lit("0" \o CRLF
@@ -118,6 +122,7 @@ WellFormedReq(r) ==
     /\ r.framing = "chunked" => (Sum(r.chunks) = r.bodyLen /\ \A k \in DOMAIN r.chunks : r.chunks[k] > 0)
     /\ r.framing # "chunked" => (r.chunks = << >> /\ r.trailers = << >>)
     /\ r.expect100 => r.framing # "none"
+    /\ r.bodyLit # "" => Len(r.bodyLit) = r.bodyLen
 
 EncodeReq(r, i) == <<Lit(Head_(r))>> \o BodySegs(r, i)
 
